@@ -1561,6 +1561,12 @@ func ruleSplitPointIsABoundary(c *Ctx, rule string, sim *ssa.Function) {
 						}
 						return false
 					case *ssa.BinOp:
+						// the segment is not a regexp segment: its suffix is compared byte by byte, any split point will do
+						if kx, isK := x.Y.(*ssa.Const); isK && kx.Value != nil && strings.HasSuffix(an.AP(x.X), ".Type") && kx.Value.ExactString() == c.A.Kind("Regexp") {
+							if (x.Op == token.NEQ && holds) || (x.Op == token.EQL && !holds) {
+								return true
+							}
+						}
 						// v against a constant: the edge is taken for 0 and not for 1
 						at0, ok0 := cmpWithConst(x, v, 0)
 						at1, ok1 := cmpWithConst(x, v, 1)
@@ -1593,6 +1599,57 @@ func ruleSplitPointIsABoundary(c *Ctx, rule string, sim *ssa.Function) {
 			reach := (&an.Query{Target: func(t ssa.Instruction) bool { return t == ssa.Instruction(r) }}).Search(an.After(c0)) != nil
 			if !reach {
 				continue
+			}
+			// a position that was moved back (it is not the computed prefix itself any more) may have landed directly
+			// behind a parameter: "a parameter is followed by at least one literal byte" has to be tested again for it
+			if movedBack(v, c0) && path == nil {
+				behind := func(b *ssa.BasicBlock, succ int) bool {
+					return edgeHas(b, succ, func(cond ssa.Value, truth bool) bool {
+						bare, neg := stripNot(cond)
+						holds := truth != neg
+						bo, isB := bare.(*ssa.BinOp)
+						if !isB {
+							return false
+						}
+						// v <= 0 (nothing to split)
+						if at0, ok0 := cmpWithConst(bo, v, 0); ok0 {
+							if at1, ok1 := cmpWithConst(bo, v, 1); ok1 && at0 == holds && at1 != holds {
+								return true
+							}
+						}
+						// text[v-1] != '}'
+						for _, pair := range [][2]ssa.Value{{bo.X, bo.Y}, {bo.Y, bo.X}} {
+							k, isK := pair[1].(*ssa.Const)
+							if !isK || k.Value == nil || k.Value.Kind() != constant.Int || k.Int64() != '}' {
+								continue
+							}
+							var ix ssa.Value
+							switch e := pair[0].(type) {
+							case *ssa.Lookup:
+								ix = e.Index
+							case *ssa.Index:
+								ix = e.Index
+							}
+							sub, isSub := ix.(*ssa.BinOp)
+							if ix == nil || !isSub || sub.Op != token.SUB || sub.X != v {
+								continue
+							}
+							if k1, ok := sub.Y.(*ssa.Const); !ok || k1.Value == nil || k1.Int64() != 1 {
+								continue
+							}
+							return (bo.Op == token.NEQ && holds) || (bo.Op == token.EQL && !holds)
+						}
+						return false
+					})
+				}
+				p2 := (&an.Query{
+					Target:    func(t ssa.Instruction) bool { return t == ssa.Instruction(r) },
+					BlockEdge: behind,
+				}).Search(an.After(c0))
+				o2 := c.R.Add(rule, c.fk(sim), fmt.Sprintf("split-point:return(%s)/moved-back/not-directly-behind-a-parameter", c.O.Of(v)), c.pos(r), p2 == nil, ifelse(p2 == nil, "the position that was moved back is tested again for standing directly behind a parameter", "the split position is moved back to a character boundary and returned without testing whether it now stands directly behind a parameter's '}': {no:\\d+}章 and {no:\\d+}篇 are split into a suffix-less regexp node (compiled to match to the end of the path) and children — both routes stay listed and both answer 404"))
+				if p2 != nil {
+					o2.Path = c.P.PathString(p2)
+				}
 			}
 			o := c.R.Add(rule, c.fk(sim), fmt.Sprintf("split-point:return(%s)/is-a-character-boundary", c.O.Of(v)), c.pos(r), path == nil, ifelse(path == nil, "the position returned is no split (<= 0, >= len) or tested with utf8.RuneStart on every path", "a position can be returned that no path tested with utf8.RuneStart: moved back once by the size of a decoded rune it is still inside a character of three or four bytes (a prefix that ends inside a character decodes as RuneError of width 1), the suffix no longer compiles and the route registered first is lost"))
 			if path != nil {
@@ -2594,4 +2651,23 @@ func sliceKeeps(c *Ctx, f *ssa.Function, p *ssa.Parameter, depth int) string {
 		}
 	})
 	return where
+}
+
+// movedBack: v is not the computed prefix c0 itself but derived from it by decrements (a loop phi with a "- 1" edge, or
+// a subtraction)
+func movedBack(v ssa.Value, c0 *ssa.Call) bool {
+	if v == ssa.Value(c0) {
+		return false
+	}
+	switch x := v.(type) {
+	case *ssa.Phi:
+		for _, e := range x.Edges {
+			if bo, ok := e.(*ssa.BinOp); ok && bo.Op == token.SUB {
+				return true
+			}
+		}
+	case *ssa.BinOp:
+		return x.Op == token.SUB
+	}
+	return false
 }
